@@ -42,7 +42,9 @@ add("C12", "history + executable row model (join on unique uid after every step)
     "concat, concat_with, append, with_features, drop_features, group_by, cutby, copy) on acryo.Molecules and on a "
     "pure-Python row model; after every step rows are joined on uid and position, orientation and every feature value "
     "are compared, partitions are checked, and inconsistent inputs must be rejected or stay consistent; data-frame views are "
-    "read before and after in-place appends on the same object (stale-cache detection).",
+    "read before and after in-place appends on the same object (stale-cache detection); the source, the appended table and the "
+    "parts of an accumulation loop are re-checked after every in-place append (aliasing); feature-less tables are concatenated "
+    "in any position.",
     "sample's choice and the order of equal sort keys are not predicted (subset / key-ordered permutation accepted). "
     "cutby is driven only with non-null cut columns; sort keys are non-null columns.",
     "DESIGN.md section 4 C12")
@@ -52,7 +54,7 @@ add("C13", "round-trip oracle on generated tables, byte-level suffix dispatch ch
     "features with nulls) are written and re-read through to_file/from_file (magic bytes decide which format was "
     "written), to_csv/from_csv at precisions {0,2,4,8,None}, to_parquet/from_parquet and to_dataframe/from_dataframe; "
     "row order, column layout, bit-equal positions (binary routes), float32-rotvec orientation precision, decimal "
-    "precision (CSV) and feature values/dtypes are compared.",
+    "precision (CSV) and feature values/dtypes are compared; every row count 1..14 is run systematically.",
     "CSV strings are generated from a class that survives type inference (number-like strings, empty strings and "
     "nulls are a format limitation, exercised only through Parquet).",
     "DESIGN.md section 4 C13")
@@ -63,7 +65,8 @@ add("C02", "reference-model oracle (map_coordinates on the full tomogram) + entr
     "0/1/3, scales, corner_safe on/off: every voxel whose interpolation support lies in the tomogram (whole box when "
     "corner_safe or identity, inscribed ball otherwise) is compared with an independent sampler at "
     "pos/scale + R(k-(shape-1)/2); exact block for the exact case; six entry points agree; all voxels finite; far-outside "
-    "windows must raise SubvolumeOutOfBoundError.",
+    "windows must raise SubvolumeOutOfBoundError; after an in-place edit of its Molecules the same loader must sample the new "
+    "poses (compared with a fresh loader); batch and single loaders agree.",
     "Order-3 voxels are bounded (0.06 sigma interior, 0.15 sigma within 8 voxels of a face) rather than compared exactly: "
     "acryo prefilters the crop, the reference the whole tomogram. Between 'some overlap' and 'far outside' either outcome is "
     "accepted but a returned array must be finite. Order-0 coordinates within 1e-3 of a rounding boundary are undecided.",
@@ -74,7 +77,7 @@ add("C15", "metamorphic oracle (binned load == block sum of the b-times larger o
     "the binned image equals reference block sums, scale and molecule translation follow the half-bin rule, "
     "orientations/features and the source loader are untouched, and every sub-volume loaded from the binned loader equals "
     "the block sum of the corresponding b-times larger sub-volume of the original loader. Batch loaders mix numpy and dask "
-    "tomograms; dask chunk sizes are not multiples of b.",
+    "tomograms; dask chunk sizes are not multiples of b; molecules carry cube-symmetry rotations.",
     "Metamorphic relation is exact only for identity orientation, molecules on the binned grid and orders 0/1, which is "
     "what the workload generates.",
     "DESIGN.md section 4 C15")
@@ -84,7 +87,8 @@ add("C14", "exact-paste, metamorphic (permutation/clipping/projection) and analy
     "0/1/3: block == template, zero elsewhere, mass, loader round trip), additivity (molecule/component permutations and "
     "splits), clipping (simulate(S,pos) == simulate(S+2p,pos+p)[p:-p] for poses straddling/outside every face, no error), "
     "general pose (analytic Gaussian-mixture particle: centre of mass within 0.05 px, values within 3 %/30 % of peak for "
-    "order 3/1, loader returns the template), projection (simulate_2d == z-sum of simulate).",
+    "order 3/1, loader returns the template), projection (simulate_2d == z-sum of simulate). Components are given as arrays or "
+    "as ImageProviders; clipping includes volumes thinner than the template.",
     "Non-grid poses use templates that vanish near their box faces, as the property's quantifier stipulates. Exact-paste "
     "cases use scales for which pos/scale is an exact (half-)integer in float32.",
     "DESIGN.md section 4 C14")
@@ -95,7 +99,8 @@ add("C17", "reference-model oracle per shell + icontract K9/K6, loader-level hal
     "symmetry, gain invariance and self-FSC = 1 are asserted; loader/batch/group FSC columns must equal the reference FSC "
     "of the returned half-maps times the mask, half-maps must be the zero-normalised split averages, frames must be "
     "reproducible per seed; FSCAlignment.score is 1 on the template, bounded and symmetric. Masks are given as array, "
-    "ImageProvider and ImageConverter to single, batch and group loaders; repeated calls alternate shell widths on one shape.",
+    "ImageProvider and ImageConverter to single, batch and group loaders; repeated calls alternate shell widths on one shape; "
+    "constant and blank images are scored and aligned with FSC in both argument orders (exactly empty shells).",
     "Shells with a bin within 1e-6 of a shell boundary, or holding < 1e-8 of either input's power, are undecided.",
     "DESIGN.md section 4 C17")
 
@@ -106,7 +111,8 @@ add("C01", "analytic ground-truth poses (exactly rendered tomograms) + pose/feat
     "LoaderGroup, align_multi_templates, align_no_template (consensus oracle) and MockLoader for ZNCC/NCC/PCC, orders 1/3, "
     "scales {1,0.5,0.7,2.3}, rotation sets given as Rotation / list / (max,step); output positions (0.25 px), orientations "
     "(0.05 deg), shift/rotation/score features are compared with the truth; align(template=list) and align(4-D template) "
-    "(implicit multi-template dispatch) and non-cubic boxes under rotation search are included.",
+    "(implicit multi-template dispatch), non-cubic boxes under rotation search and hand-made LoaderGroups of loaders with "
+    "different pixel sizes are included.",
     "Noise-free particles; multi-template species have equal energy (PCC scores are not normalised); template-free "
     "alignment is judged by consensus of 6 molecules (spread <= 0.5 px and <= 0.6 x the input spread).",
     "DESIGN.md section 4 C01")
@@ -116,10 +122,12 @@ add("C04", "analytic displaced copies (exact ground truth) + accuracy oracle per
     "interpolation), d in the closed box [-M, M]^3 incl. integer, fractional and boundary values, M on and off the 1/20 px "
     "grid and anisotropic; all four models, masks none/binary/soft, cutoffs, single/dual-axis tilt models, random "
     "orientations, gains/offsets; |shift - d| is held against the property's own 0.1 / 0.5 px, identity rotation, score, "
-    "fit == align, fitted image superimposes (sign convention); sub-volumes sit on constant backgrounds of 0/0.5/2x the amplitude.",
+    "fit == align, fitted image superimposes (sign convention); sub-volumes sit on constant backgrounds of 0/0.5/2x the amplitude, "
+    "data of low overall intensity (x1e-3, x1e-4) and search ranges wider than half the box are included.",
     "Exceedances of the stated accuracy that match a listed mechanism (wedge bias of ZNCC/NCC, range-edge tail, FSC "
-    "integer-grid interpolation) are KNOWN-FINDINGs; their predicates bound the error size, so gross errors are still "
-    "violations. Displaced density is kept inside the box and inside masks (non-degenerate templates).",
+    "integer-grid interpolation) are KNOWN-FINDINGs; their predicates bound the error size and beyond the first bound require "
+    "the signature of the mechanism (z-only under-estimate; result within 0.75 px of the best integer shift of an independently "
+    "computed FSC landscape), so gross errors and refinement bugs are still violations. Displaced density is kept inside the box and inside masks (non-degenerate templates).",
     "DESIGN.md section 4 C04, section 6")
 
 add("C05", "hostile-input workload + icontract postcondition K1 on every align call, loader-level frame check",
@@ -128,7 +136,8 @@ add("C05", "hostile-input workload + icontract postcondition K1 on every align c
     "rotation search; K1 watches every align call for exceptions-free, finite, in-range results; loader level "
     "(align, align_multi_templates, LoaderGroup.align, scalar/tuple/array/int max_shifts in nm, scales) checks the "
     "displacement of each molecule in its own frame and the align-d* features against max_shifts; template-free alignment of "
-    "mis-centred particles with sub-nm and anisotropic ranges.",
+    "mis-centred particles with sub-nm and anisotropic ranges; multi-template searches spelled as align_multi_templates, "
+    "align(list) and align(4-D array).",
     "FSC is driven with max_shifts <= 3.2 px only (its landscape is a Python triple loop).",
     "DESIGN.md section 4 C05")
 
@@ -139,7 +148,9 @@ add("C06", "ground-truth (template j, rotation k, shift d) planting + candidate-
     "LoaderGroup.align_multi_templates (list and mapping): label feature = j and pose = truth. Oracle B: every call of the "
     "model's _optimize is logged; the result must be the logged arg-max (score, shift, label, rotation), also on noise. "
     "Candidates with rotation-variant and boolean masks, searches with 375 candidates (labels above 255), single non-identity "
-    "rotations and (max, step) ranges whose end points are exact multiples are included.",
+    "rotations (stacked, listed or a single Rotation object) and (max, step) ranges whose end points are exact multiples are "
+    "included; models carry tilt models (the wedge is the same for every candidate), fit and align must agree on every "
+    "sub-volume, and group mappings give different numbers of templates per key.",
     "Oracle B relies on the model evaluating candidates through its _optimize method (observed T*K calls is asserted).",
     "DESIGN.md section 4 C06")
 
@@ -161,9 +172,13 @@ add("C07", "independent float64 reference pipeline for scores + consistency laws
     "range, identity = 1, gain and offset invariance; score == landscape centre == zero-range alignment score for ZNCC "
     "and FSC; the arg-max of the (up-sampled 1/2/5x) landscape lies within one sample of the shift align reports for all "
     "four models (also for multi-candidate models with upsample > 1); loader.score and construct_landscape rows equal the "
-    "model's per-sub-volume values; one model object scores many orientations under a wedge (no state carried over).",
+    "model's per-sub-volume values; one model object scores many orientations under a wedge (no state carried over); every "
+    "slab of a rotation landscape under a rotation-variant mask equals the landscape of a model searching that rotation alone; "
+    "ranges with zero-width components.",
     "The wedge mask entering the reference is the one returned by the model's public get_missing_wedge_mask (its geometry "
-    "is C08's job). FSC invariance is judged on inputs whose shells all carry power. The arg-max law is judged from 6 voxels on.",
+    "is C08's job). FSC invariance is judged on inputs whose shells all carry power. The arg-max law is judged from 6 voxels on; "
+    "FSC/PCC exceedances up to 1 px whose best integer node agrees with align are the open finding "
+    "landscape.spline-upsampling-vs-align (KNOWN-FINDING).",
     "DESIGN.md section 4 C07")
 
 add("C09", "one-hot identity encoding of split membership + float64 mean reference, icontract K6, scheduler matrix",
@@ -174,7 +189,8 @@ add("C09", "one-hot identity encoding of split membership + float64 mean referen
     "reproducible per (N, seed) across loaders/schedulers, count-weighted recombination == average; on random data the "
     "half-maps must equal the means over exactly those sets, also through fsc_with_halfmaps and LoaderGroup.average_split. "
     "Batch loaders with rotated molecules, corner_safe, orders 0/1/3 and scales must average to the count-weighted mean of "
-    "single loaders built with the same options.",
+    "single loaders built with the same options, also under explicit image ids registered out of sorted order and after "
+    "dropping one tomogram and adding another with an automatic id.",
     "Identity orientation, integer sample coordinates (orders 0/1) so that the loaded blocks are known exactly (except in "
     "the rotated batch law, which compares two loader kinds with each other).",
     "DESIGN.md section 4 C09")
@@ -188,7 +204,8 @@ add("C10", "schedule/interleaving perturbation vs synchronous reference: schedul
     "interval, seeded task delays, and numpy vs dask tomograms in several chunkings. Oracle: no exception, outputs equal "
     "to the reference, memoised helper arrays unchanged, Backend default restored; declared shapes of lazy arrays equal "
     "computed shapes for integer/fractional ranges (also beyond box/2), upsample 1-4, single/multi template; multi-candidate "
-    "landscapes (landscape-rot) run under threads and injected yields.",
+    "landscapes (landscape-rot) run under threads and injected yields; lazily binned loaders are compared across tomogram "
+    "chunkings.",
     "Interleavings are sampled, not enumerated: held = no difference on the perturbed runs of this execution (counts of "
     "injected yields, shuffled tasks, distinct signatures in the evidence). Only GIL hand-over points CPython really has "
     "(statement starts, call boundaries) are used. cupy backend absent.",
@@ -216,7 +233,9 @@ add("C19", "reference interpreter for generated pipeline expression trees + alge
     "arguments and output validation, scale covariance of seven nm-parameterised converters and from_gaussian, rescaling "
     "providers, the Gaussian provider formula, extensivity/anti-extensivity and [0,1] range of the mask converters, and "
     "loader.normalize_template/mask/input at the loader's scale; from_array tolerance at voxel sizes far from 1 nm and under a "
-    "change of length unit; converters built from ndarray parameters evaluated twice and at two scales (purity).",
+    "change of length unit; converters built from ndarray parameters evaluated twice and at two scales (purity); gaussian_filter "
+    "and shift against scipy for every mode and cval; from_atoms against a voxel-by-voxel weighted histogram; mask converters on "
+    "objects touching the box faces; scalar arithmetic with boolean-valued pipelines.",
     "Leaf pipelines are trusted inside trees (the algebra is judged there); comparisons only at the root (arithmetic on "
     "boolean arrays is numpy's semantics). radius/scale is kept away from integers so one ulp cannot flip a ceil.",
     "DESIGN.md section 4 C19")
@@ -228,6 +247,7 @@ add("C20", "planted-particle ground truth (bijection oracle) + numpy-vs-chunked 
     "slabs thinner than the overlap, pencils, cubes, single) under synchronous/threaded/shuffled schedulers: picks must "
     "be one-to-one with the particles (1 px), carry the planted rotation, and positions and scores of the chunked run "
     "must equal those of the numpy run. A quarter of the LoG/DoG images are slabs thinner than the overlap depth; template "
-    "matching uses exclusion radii of 5/8/10 px given in nm with particles as close as the template allows.",
+    "matching uses exclusion radii of 5/8/10 px given in nm with particles as close as the template allows, even-sized templates "
+    "(half-integer positions) and chunk borders that pass exactly through a particle centre.",
     "Noise-free (LoG/DoG) or weak-noise (template matching) images; particle spacing >= 6 sigma / template size + 6.",
     "DESIGN.md section 4 C20")
